@@ -12,6 +12,9 @@ func init() {
 		"instruments of different scopes that share an exported family: values are not asserted (the winner depends on the SDK's scope order); the registry must accept every scrape when the scope labels are on and the scopes differ in (name, version); clashes inside one scope / without scope labels / with an ambiguous View are 'no panic' only",
 		"two instruments of one scope with the same spelling but another kind of data are told apart in the ManualReader's output by their data shape; names of one scope that differ only in letter case stay 'no panic' only",
 		"the race window of concurrent FIRST scrapes is sampled (2..8 scrapers x 2..6 fresh exporters per concurrent case), not enumerated",
+		"a resource / scope / instrument attribute that Prometheus cannot represent (value not valid UTF-8; key not valid UTF-8 under the UTF-8 scheme): asserted is that the registry accepts every scrape and that everything representable stays exact; what becomes of the unrepresentable element (target_info, that scope's otel_scope_info and instruments, that series) is not asserted, client_golang's refusal going to otel.Handle is expected",
+		"the label value of a non-string attribute is expected in its canonical string form (attribute.Value.Emit)",
+		"process-wide first-use state is sampled in 2..3 fresh child processes per fresh_process case (2..4 exporters x 1..3 first scrapes released together); a race whose window the sampled schedules do not hit is missed",
 		"concurrent scrapes are checked for crash/race freedom, legal names, cumulative shape and monotone counters; exact values only at quiescence; schedules are sampled, not enumerated",
 	))
 }
